@@ -69,6 +69,10 @@ NAME_ALPHABET = [b'a', b'_', b'__', b'X', b'X41', b'a b', b'a-b', b'a"b', b'a\\b
 def name_module(nm, position):
     """a valid module with the stress name in one position: export / import module / import field / name-section function name"""
     m = Module()
+    if position == 'import-global':
+        m.imports.append((nm, nm, 3, (I32, 0)))
+        m.add_func('', 'i', (), global_get(0), export='e')
+        return m.encode()
     if position == 'import-module':
         m.import_func(nm, 'f', '', '')
     elif position == 'import-field':
@@ -169,7 +173,7 @@ def main(tier):
     for n, d in hb:
         for part in chunks(full if tier == 'thorough' else full[::6], 24):
             jobs.append((n, d, part, w2c2))
-    positions = ('export', 'import-module', 'import-field', 'name-section', 'partial-name-section')
+    positions = ('export', 'import-module', 'import-field', 'name-section', 'partial-name-section', 'import-global')
     for nm in NAME_ALPHABET:
         for pos in positions:
             jobs.append(('name %r in %s' % (nm[:12], pos), name_module(nm, pos), [[], ['-g'], ['-m', '-p'], ['-g', '-f', '1', '-t', '1']], w2c2))
